@@ -6,7 +6,9 @@ pub mod calendar;
 pub mod duration;
 pub mod durfloat;
 pub mod durtext;
+pub mod efmt;
 pub mod epoch;
+pub mod epochtext;
 pub mod f64ops;
 
 pub fn salt(prop: &str) -> u64 {
@@ -24,6 +26,17 @@ pub fn inputs(prop: &str, r: &mut Rng, n: usize, tier: &str, out: &mut dyn Write
         "C02" => duration::inputs_c02(r, n, tier, out),
         "C03" => duration::inputs_c03(r, n, tier, out),
         "C14" => duration::inputs_c14(r, n, tier, out),
+        "C10" => epochtext::inputs_c10(r, n, tier, out),
+        "C13E" => epochtext::inputs_c13e(r, n, tier, out),
+        "C13" => {
+            // the three parser streams of C13: durations, epochs / enums, format specifications and (format, text) pairs
+            let k = n / 10;
+            durtext::inputs_c13d(r, 4 * k, tier, out);
+            epochtext::inputs_c13e(r, 3 * k, tier, out);
+            efmt::inputs_c13f(r, n - 7 * k, tier, out);
+        }
+        "C19" => efmt::inputs_c19(r, n, tier, out),
+        "C13F" => efmt::inputs_c13f(r, n, tier, out),
         "C18" => durfloat::inputs_c18(r, n, tier, out),
         "F64" => f64ops::inputs_f64(r, n, tier, out),
         "C11" => durtext::inputs_c11(r, n, tier, out),
@@ -56,6 +69,12 @@ pub fn exec(op: &str, args: &[&str]) -> Option<String> {
     if let Some(r) = durtext::exec(op, args) {
         return Some(r);
     }
+    if let Some(r) = epochtext::exec(op, args) {
+        return Some(r);
+    }
+    if let Some(r) = efmt::exec(op, args) {
+        return Some(r);
+    }
     if let Some(r) = f64ops::exec(op, args) {
         return Some(r);
     }
@@ -70,5 +89,7 @@ pub fn dump_consts(m: &mut serde_json::Map<String, serde_json::Value>) {
     epoch::dump_consts(m);
     calendar::dump_consts(m);
     durtext::dump_consts(m);
+    epochtext::dump_consts(m);
+    efmt::dump_consts(m);
     durfloat::dump_consts(m);
 }
